@@ -27,7 +27,7 @@ import elementpath.aliases as ta
 
 from elementpath.exceptions import ElementPathValueError
 from elementpath.namespaces import XML_ID, XML_LANG, XML_NAMESPACE
-from elementpath.helpers import Patterns, is_idrefs, is_xml_codepoint, round_number
+from elementpath.helpers import Patterns, is_idrefs, is_xml_codepoint, round_number, get_double
 from elementpath.datatypes import DateTime10, DateTime, Date10, Date, \
     Float, DoubleProxy, Time, Duration, DayTimeDuration, YearMonthDuration, \
     UntypedAtomic, AnyURI, QName, NCName, Id, ArithmeticProxy, NumericProxy
@@ -459,9 +459,14 @@ def evaluate__avg(self: XPathFunction, context: ta.ContextType = None) \
             raise self.error('FORG0006', err)
     else:
         try:
-            numbers = [float(x) if isinstance(x, Decimal) else x for x in values]
-            # no integer 0 as start value: keeps a negative zero
-            return sum(numbers[1:], start=numbers[0]) / len(values)  # type: ignore[misc, arg-type]
+            # all values are promoted to xs:double (INF beyond its range), then added as
+            # fn:sum does: $c[1] + fn:sum(subsequence($c, 2))
+            numbers = [get_double(x) if isinstance(x, (int, Decimal)) else x  # type: ignore[arg-type]
+                       for x in values]
+            total = numbers[-1]
+            for number in reversed(numbers[:-1]):
+                total = number + total  # type: ignore[operator]
+            return total / len(values)  # type: ignore[operator]
         except TypeError as err:
             if isinstance(context, XPathSchemaContext):
                 return []
